@@ -163,6 +163,13 @@ def run(chk):
     from ..fold import PartialEvaluator
     for s in P.players:
         pe = PartialEvaluator(f, repo.cls('Hands').module, [lambda n, s=s: s if isinstance(n, ast.Name) and n.id == ip else NOVALUE])
-        got = {ast.unparse(p.end[1]) for p in hp if P.consistent(p, pe) and p.end[0] == 'return'}
+        def through_dict(e, s=s):
+            # `{Player.N: self.north, ...}[item]` hands out the stored object of the matching key (no copy is made by the lookup)
+            if isinstance(e, ast.Subscript) and isinstance(e.value, ast.Dict):
+                for k_, v_ in zip(e.value.keys, e.value.values):
+                    if k_ is not None and ast.unparse(k_) == f'Player.{s.name}':
+                        return v_
+            return e
+        got = {ast.unparse(through_dict(p.end[1])) for p in hp if P.consistent(p, pe) and p.end[0] == 'return'}
         chk.require(got == {f'self.{want[s.name]}'}, 'C05.R2', w, q, f'Hands[{s.name}]', f'hands[{s.name}] is the {want[s.name]} hand itself',
                     f'Hands[{s.name}] returns {got}')
